@@ -327,7 +327,15 @@ func mfRunCfgText(text, syn string, srv *httptest.Server, hits *int64, parseStag
 	logged := string(loggedB)
 	evs := []mfEvent{}
 	info := map[string]interface{}{"config": trunc(text, 1500), "log": tail(logged, 700)}
-	readFailed := strings.Contains(logged, "Config read failed") || strings.Contains(logged, "Config parsing failed")
+	// which log.Fatal ended readConfig: the message of the FATAL line (an error that was merely logged does not count)
+	fatalMsg := ""
+	for _, ln := range strings.Split(logged, "\n") {
+		if f := strings.Split(ln, "\t"); len(f) >= 4 && f[1] == "FATAL" {
+			fatalMsg = f[3]
+		}
+	}
+	info["fatal"] = fatalMsg
+	readFailed := fatalMsg == "Config read failed" || fatalMsg == "Config parsing failed"
 	if outcome == "panic" {
 		evs = append(evs, mfEvent{"Panic", "readConfig: " + panicText})
 		return mfCfgRun{evs, info}
